@@ -207,6 +207,17 @@ def run(chk, ctx) -> None:
     _create_state(chk, ctx, variants)
     _game_call(chk, ctx)
     _codes(chk, ctx, sev)
+    # a hand history re-creates the game of its variant code with the parameters it recorded (the name / parameter clauses of C16)
+    from .c16 import _fields
+    from .helpers import Refile
+    hh = prog.cls('HandHistory')
+    _fields(Refile(chk, {'C16.names': 'C11.codes'}), ctx, hh, hh.methods.get('from_game_state'))
+    # ... and the class a code stands for is looked up afresh (a remembered game type survives a change of the variant field)
+    from ..ctx import _dynamic
+    gt = hh.methods.get('game_type')
+    dyn = _dynamic(prog, gt) if gt is not None else [(None, 'HandHistory.game_type vanished')]
+    chk.ob('C11.codes', 'HandHistory.game_type:static', not dyn, gt.loc if gt is not None else hh.loc,
+           'the game type of a history is read off its variant code every time it is asked for', got=[w for _, w in dyn[:2]])
 
 
 def _cap_semantics(chk, ctx) -> None:
